@@ -50,7 +50,7 @@ Items == {
 Q2(n, d) == Num("float", QNorm(n, d), QZero)
 Env1 == << [n |-> "a", v |-> Q2(3, 4)], [n |-> "b", v |-> Q2(-3, 2)], [n |-> "c", v |-> Q2(5, 8)], [n |-> "d", v |-> IntV(2)], [n |-> "e", v |-> Q2(1, 4)], [n |-> "w2", v |-> Q2(7, 10)], [n |-> "wscale", v |-> IntV(3)], [n |-> "p1a", v |-> Q2(9, 8)], [n |-> "v", v |-> Q2(7, 8)], [n |-> "lambda", v |-> Q2(3, 8)], [n |-> "not", v |-> IntV(2)], [n |-> "sw", v |-> Q2(-5, 8)], [n |-> "p0_bs", v |-> Q2(-3, 8)],
            [n |-> "w_0_0", v |-> Q2(1, 2)], [n |-> "w_0_1", v |-> Q2(3, 2)], [n |-> "w_1_0", v |-> Q2(5, 2)], [n |-> "w_1_1", v |-> Q2(-1, 1)],
-           [n |-> "u_0_0", v |-> IntV(1)], [n |-> "u_0_1", v |-> Q2(7, 4)] >>
+           [n |-> "u_0_0", v |-> Num("complex", <<1, 1>>, <<2, 1>>)], [n |-> "u_0_1", v |-> Num("complex", <<7, 4>>, <<-1, 2>>)] >>
 Env2 == << [n |-> "a", v |-> IntV(2)], [n |-> "b", v |-> Q2(1, 4)], [n |-> "c", v |-> Q2(-9, 4)], [n |-> "d", v |-> Q2(11, 2)], [n |-> "e", v |-> IntV(-3)], [n |-> "w2", v |-> Q2(-1, 2)], [n |-> "wscale", v |-> Q2(5, 4)], [n |-> "p1a", v |-> IntV(6)], [n |-> "v", v |-> IntV(-2)], [n |-> "lambda", v |-> IntV(5)], [n |-> "not", v |-> Q2(-7, 4)], [n |-> "sw", v |-> Q2(3, 16)], [n |-> "p0_bs", v |-> Q2(13, 4)],
            [n |-> "w_0_0", v |-> Q2(-1, 4)], [n |-> "w_0_1", v |-> IntV(0)], [n |-> "w_1_0", v |-> Q2(9, 2)], [n |-> "w_1_1", v |-> Q2(1, 8)],
            [n |-> "u_0_0", v |-> Q2(-5, 2)], [n |-> "u_0_1", v |-> IntV(4)] >>
